@@ -60,8 +60,32 @@ fn one_plain(rs: &Result<Vec<R>, String>) -> Result<BigRational, String> {
     }
 }
 
+/// `<0*N>` inside a case's text stands for N zeros (keeps evidence and replay files small for the giant literals).
+pub fn expand(lit: &str) -> String {
+    let mut out = String::new();
+    let mut rest = lit;
+    while let Some(i) = rest.find("<0*") {
+        out.push_str(&rest[..i]);
+        let tail = &rest[i + 3..];
+        match tail.find('>') {
+            Some(j) => {
+                let n: usize = tail[..j].parse().unwrap_or(0);
+                out.push_str(&"0".repeat(n));
+                rest = &tail[j + 1..];
+            }
+            None => {
+                out.push_str(&rest[i..]);
+                rest = "";
+            }
+        }
+    }
+    out.push_str(rest);
+    out
+}
+
 pub fn check(c: &LitCase) -> CaseReport {
-    let s = &c.lit;
+    let expanded = expand(&c.lit);
+    let s = &expanded;
     let want = match parse_literal(s) {
         Some(v) => v,
         None => return CaseReport::discard(s, "ill-formed (outside the statement)"),
@@ -245,6 +269,13 @@ pub fn run_check(ctx: &Ctx) {
         })
         .collect();
     ctx.run_list("thousand-digit-literals", &huge, check, |c| to_json(c));
+    // literals of 2^16 bytes and more (mostly zeros, so they stay cheap to read): the width in which a
+    // token's length is kept must hold them
+    let giant: Vec<LitCase> = [65_533usize, 65_534, 65_535, 65_536, 70_001]
+        .iter()
+        .flat_map(|n| vec![LitCase { lit: format!("0.<0*{}>5", n) }, LitCase { lit: format!("<0*{}>42", n) }, LitCase { lit: format!("1e<0*{}>5", n) }, LitCase { lit: format!("-<0*{}>.<0*{}>25%", n / 2, n / 2) }])
+        .collect();
+    ctx.run_list("sixty-five-thousand-character-literals", &giant, check, |c| to_json(c));
     let mid = LitCfg { max_int_digits: 30, max_frac_digits: 30, max_exp: 99, ..long };
     ctx.run_gen("random-mid", || gen::lit(mid).prop_map(|l| LitCase { lit: l.text }), n, check, |c| to_json(c));
 }
